@@ -1964,6 +1964,10 @@ static void scenario(const char *name, uint64_t seed)
     snprintf(fr, sizeof fr, "%ld", opt_long("freq", 1 + rnd(4)));
     setenv("ABT_SCHED_EVENT_FREQ", fr, 1);
     setenv("ABT_THREAD_STACKSIZE", "65536", 1);
+    /* every block obtained from the system allocator is returned exactly once: the
+     * ledger reports a free of an unknown pointer at once and what is left after ABT_finalize */
+    abtv_ledger_reset();
+    abtv_ledger_track(1);
     CHK(ABT_init(0, NULL));
     ABT_xstream dead = ABT_XSTREAM_NULL;
     if (opt_long("dead", 0)) {
@@ -2009,6 +2013,12 @@ static void scenario(const char *name, uint64_t seed)
         EV("\"e\":\"FinalizeCall\"");
         CHK(ABT_finalize());
         EV("\"e\":\"FinalizeRet\",\"us\":[]");
+        for (int i = 0; i <= SW_PRIMARY; i++) {
+            free(g_sw_ustack[i]);
+            g_sw_ustack[i] = NULL;
+        }
+        EV("\"e\":\"Ledger\",\"live\":%ld,\"errors\":%ld", abtv_ledger_live(), abtv_ledger_errors());
+        abtv_ledger_track(0);
         return;
     }
     generate();
@@ -2072,5 +2082,7 @@ static void scenario(const char *name, uint64_t seed)
         EV("\"e\":\"FinalizeCall\"");
         CHK(ABT_finalize());
         EV("\"e\":\"FinalizeRet\",\"us\":[%s]", buf);
+        EV("\"e\":\"Ledger\",\"live\":%ld,\"errors\":%ld", abtv_ledger_live(), abtv_ledger_errors());
+        abtv_ledger_track(0);
     }
 }
